@@ -913,7 +913,7 @@ func init() {
 		Plan: func(tier fw.Tier, seed int64) []fw.Batch {
 			n := 16
 			if tier == fw.Thorough {
-				n = 96
+				n = 64
 			}
 			var bs []fw.Batch
 			for i := 0; i < n; i++ {
@@ -924,7 +924,7 @@ func init() {
 		Run: func(w *fw.W, b fw.Batch) {
 			n := 3000
 			if w.Tier == fw.Thorough {
-				n = 40000
+				n = 25000
 			}
 			debug.SetGCPercent(400)
 			if b.Index == 0 {
